@@ -51,3 +51,11 @@ def well_typed(raw):
         return False
     cands, st = raw
     return isinstance(cands, list) and all(isinstance(c, str) for c in cands) and isinstance(st, tuple) and len(st) == 4
+
+
+def read_budget(n, k):
+    """a sound bound on accessor row reads of repair_dna, with a factor 2 of slack: the scan reads at most 2 rows per
+    position; each path_matching call reads 1 row for the live arcs plus, for at most 4 substitution and 4 insertion
+    candidates and 1 deletion, 1 row for the first arc and 2 rows per step of a chunk of at most 2k symbols; at most k
+    calls per detection and at most n detections"""
+    return 2 * n * (2 + 9 * k + 36 * k * k) + 64
